@@ -188,6 +188,18 @@ META = {
         assumptions=["SELECT ... FOR UPDATE, INSERT ... ON DUPLICATE KEY UPDATE and XA inside a global transaction belong to C03 / C17"],
         timeout=2400,
     ),
+    "C11": dict(
+        rule="undo-log rows (resource x xid x branch id, with xids shared across branches and branch ids across xids, "
+             "two resources on separate databases), a shuffled list of BranchCommit requests (subset of the rows, "
+             "duplicates, requests without a row) handed to a fresh AsyncWorker by 1-3 goroutines, under worker settings "
+             "buffer limit 1/3/10/1000 x clean interval 5/20/60 ms x queue size 1/4/100 x workers 1/3 x worker buffer "
+             "1/10 and one of: no fault, the first / first three DELETEs failing, the first two PREPAREs failing, the "
+             "second resource unknown to the resource manager until after the requests; observed after quiescence: "
+             "the remaining undo-log rows; every request must be answered committed",
+        trusted=["quiescence is detected by polling the undo_log tables for up to 4 s plus three clean intervals"],
+        assumptions=["the process stays alive; the database failures are transient (finitely many)"],
+        timeout=2400,
+    ),
     "C02": dict(
         rule="one AT local transaction (autocommit statement, or explicit BEGIN/1-2 statements/COMMIT; UPDATE, DELETE or "
              "INSERT that certainly changes a row) inside a global transaction, run once fault-free and then once per "
